@@ -335,7 +335,11 @@ fn cli_linear(rep: &mut Report) {
                 if form == "glob" {
                     args.extend(["--glob".to_string(), "*".to_string()]);
                 }
-                let o = cli::run(&exe, dir, &args, None);
+                let mut o = cli::run(&exe, dir, &args, None);
+                // small archives: extracted a second time into the same directory (files already there)
+                if nfiles <= 40 && o.status.success() {
+                    o = cli::run(&exe, dir, &args, None);
+                }
                 let replay = json!({"cli_linear": {"files": nfiles, "layers": layers.tag(), "form": form}});
                 rep.class(&format!("cli/{form}/{}/files={nfiles}", layers.tag()));
                 if !o.status.success() {
